@@ -156,6 +156,84 @@ build!(toggle_int_result, {
         fn delta(&self, v: u64) -> Result<u64, ()>;
     }
 });
+// ---- wrapper types whose ELEMENT type changes ----------------------------------------------------
+build!(wbase, {
+    use cglue::callback::OpaqueCallback; use cglue::iter::CIterator; use cglue::vec::CVec; use cglue::arc::CArc;
+    #[cglue_trait]
+    pub trait W {
+        fn cb(&self, cb: OpaqueCallback<u32>);
+        fn it(&self, it: CIterator<u32>);
+        fn sl(&self, s: &[u8]);
+        fn vc(&self, v: CVec<u32>);
+        fn ar(&self, a: CArc<u32>);
+    }
+});
+build!(wsame, {
+    use cglue::callback::OpaqueCallback; use cglue::iter::CIterator; use cglue::vec::CVec; use cglue::arc::CArc;
+    #[cglue_trait]
+    pub trait W {
+        fn cb(&self, cb: OpaqueCallback<u32>);
+        fn it(&self, it: CIterator<u32>);
+        fn sl(&self, s: &[u8]);
+        fn vc(&self, v: CVec<u32>);
+        fn ar(&self, a: CArc<u32>);
+    }
+});
+build!(w_callback_elem, {
+    use cglue::callback::OpaqueCallback; use cglue::iter::CIterator; use cglue::vec::CVec; use cglue::arc::CArc;
+    #[cglue_trait]
+    pub trait W {
+        fn cb(&self, cb: OpaqueCallback<u64>);
+        fn it(&self, it: CIterator<u32>);
+        fn sl(&self, s: &[u8]);
+        fn vc(&self, v: CVec<u32>);
+        fn ar(&self, a: CArc<u32>);
+    }
+});
+build!(w_iter_elem, {
+    use cglue::callback::OpaqueCallback; use cglue::iter::CIterator; use cglue::vec::CVec; use cglue::arc::CArc;
+    #[cglue_trait]
+    pub trait W {
+        fn cb(&self, cb: OpaqueCallback<u32>);
+        fn it(&self, it: CIterator<u64>);
+        fn sl(&self, s: &[u8]);
+        fn vc(&self, v: CVec<u32>);
+        fn ar(&self, a: CArc<u32>);
+    }
+});
+build!(w_slice_elem, {
+    use cglue::callback::OpaqueCallback; use cglue::iter::CIterator; use cglue::vec::CVec; use cglue::arc::CArc;
+    #[cglue_trait]
+    pub trait W {
+        fn cb(&self, cb: OpaqueCallback<u32>);
+        fn it(&self, it: CIterator<u32>);
+        fn sl(&self, s: &[u16]);
+        fn vc(&self, v: CVec<u32>);
+        fn ar(&self, a: CArc<u32>);
+    }
+});
+build!(w_vec_elem, {
+    use cglue::callback::OpaqueCallback; use cglue::iter::CIterator; use cglue::vec::CVec; use cglue::arc::CArc;
+    #[cglue_trait]
+    pub trait W {
+        fn cb(&self, cb: OpaqueCallback<u32>);
+        fn it(&self, it: CIterator<u32>);
+        fn sl(&self, s: &[u8]);
+        fn vc(&self, v: CVec<u64>);
+        fn ar(&self, a: CArc<u32>);
+    }
+});
+build!(w_arc_elem, {
+    use cglue::callback::OpaqueCallback; use cglue::iter::CIterator; use cglue::vec::CVec; use cglue::arc::CArc;
+    #[cglue_trait]
+    pub trait W {
+        fn cb(&self, cb: OpaqueCallback<u32>);
+        fn it(&self, it: CIterator<u32>);
+        fn sl(&self, s: &[u8]);
+        fn vc(&self, v: CVec<u32>);
+        fn ar(&self, a: CArc<u64>);
+    }
+});
 // ---- groups -------------------------------------------------------------------------------------
 build!(gbase, {
     #[cglue_trait] pub trait Ma { fn ma(&self) -> u32; }
@@ -225,6 +303,13 @@ fn main() {
     case("receiver_plain", false, iface!(base), iface!(receiver_plain));
     case("receiver_lifetimed", false, iface!(base), iface!(receiver_lifetimed));
     case("toggle_int_result", false, iface!(base), iface!(toggle_int_result));
+    macro_rules! wl { ($m:ident) => { <$m::WBox<'static> as StableAbi>::LAYOUT } }
+    case("identical_wrappers", true, wl!(wbase), wl!(wsame));
+    case("callback_element_type", false, wl!(wbase), wl!(w_callback_elem));
+    case("iterator_element_type", false, wl!(wbase), wl!(w_iter_elem));
+    case("slice_element_type", false, wl!(wbase), wl!(w_slice_elem));
+    case("vec_element_type", false, wl!(wbase), wl!(w_vec_elem));
+    case("arc_element_type", false, wl!(wbase), wl!(w_arc_elem));
     case("identical_group", true, grp!(gbase), grp!(gsame));
     case("group_remove_optional", false, grp!(gbase), grp!(g_remove_optional));
     case("group_add_optional", false, grp!(gbase), grp!(g_add_optional));
